@@ -7,3 +7,4 @@ import BalmProofs.Props.C07
 #print axioms Balm.Impl.findDrivers_eq_gen
 #print axioms Balm.Impl.Gen.result_complete
 #print axioms Balm.Impl.Gen.result_minimal
+#print axioms Balm.Impl.findDrivers_free
